@@ -13,6 +13,7 @@ starts with its own `(import …)`). Only property theorems live here; helpers a
 `RuschmProofs/FrontLemmas.lean`, spec-side definitions in `RuschmSpec/Front.lean`.
 -/
 import RuschmProofs.FrontLemmas
+import RuschmProofs.C06
 
 namespace Ruschm.C17
 open Ruschm Ruschm.Interp Ruschm.Front Ruschm.FrontSpec
@@ -221,6 +222,23 @@ theorem crlf_irrelevant (fuel : Nat) (ts : List Token) (l : List (List Char))
       cli fuel (some (String.ofList (Text.interleave ts l))) := by
   have hv := validLayout_crlf ts hs l h
   exact ⟨hv, (file_text_layout fuel ts _ _ hs h hv (sameCursor_crlf ts l h)).2.2.symm⟩
+
+/-- THE FORMS DO NOT DEPEND ON THE LAYOUT AT ALL (up to source locations). A sequence of written
+data (`Text.Syn`, supported tokens) under ANY two valid layouts — different line breaks,
+indentation, comments, LF or CRLF, a final newline or none — is read as the same forms, up to the
+locations stored in them, and without a reader error: the data they denote
+(`C06.read_render_many`). What `file_text_layout` adds is that with equal LOCATIONS the whole run
+is equal; that a run does not depend on the locations except in the diagnostic's LINE:COL is not
+proved here (it needs location-parametricity of the transformer and evaluator). -/
+theorem forms_layout_invariant (xs : List Text.Syn) (hxs : Text.Syn.SupportedL xs) (l₁ l₂ : List (List Char))
+    (h₁ : Text.ValidLayout (Text.Syn.toksL xs) l₁) (h₂ : Text.ValidLayout (Text.Syn.toksL xs) l₂) :
+    (formsOf (Text.interleave (Text.Syn.toksL xs) l₁)).1.map Datum.strip
+      = (formsOf (Text.interleave (Text.Syn.toksL xs) l₂)).1.map Datum.strip ∧
+    (formsOf (Text.interleave (Text.Syn.toksL xs) l₁)).2 = none ∧
+    (formsOf (Text.interleave (Text.Syn.toksL xs) l₂)).2 = none := by
+  obtain ⟨a1, a2⟩ := C06.read_render_many xs hxs l₁ h₁
+  obtain ⟨b1, b2⟩ := C06.read_render_many xs hxs l₂ h₂
+  exact ⟨a1.trans b1.symm, a2, b2⟩
 
 section Example
 /-- the tokens `1` `)` written `1 ;c⏎)` and `1 ;c␍⏎)⏎`: same located tokens, same run -/
